@@ -296,7 +296,7 @@ def gen_cases(seed, tier):
             seedform = common.stratum(j, 105, ['int', 'int', 'none'])
         cases.append(dict(kind=kind, asc=asc, t0_class=t0c, t0=t0, hist=hist, comp=comp, fs=fs, fch1=fch1,
                           fs_q=bool(rng.random() < 0.4), fch1_q=bool(rng.random() < 0.4), seedform=seedform,
-                          seed=int(rng.integers(2 ** 31)), srcs=srcs, ops=ops))
+                          seed=0 if common.stratum(j, 106, 10) == 0 else int(rng.integers(2 ** 31)), srcs=srcs, ops=ops))     # 0 is a seed
     cases.extend(_probe_cases(rng, tier))
     return cases
 
